@@ -221,6 +221,11 @@ impl Campaign for C01c {
                     Expect::Nothing => None,
                 })
                 .collect();
+            // the body of the automatic 500 is not specified: matched by status alone
+            let auto: Vec<bool> = exp_msgs
+                .iter()
+                .map(|m| matches!(sc.programs.get(&m.0).map(|p| &p.finish), Some(Finish::Drop) | Some(Finish::Panic)))
+                .collect();
             // (a) raw token runs: contiguous and ordered
             let runs = token_runs(&co.received.0);
             let exp_runs: Vec<String> = exp_msgs
@@ -299,7 +304,7 @@ impl Campaign for C01c {
                 .collect();
             for (k, g) in got.iter().enumerate() {
                 match exp_msgs.get(k) {
-                    Some(e) if e.1 == g.0 && &e.2 == g.1 => {}
+                    Some(e) if e.1 == g.0 && (&e.2 == g.1 || auto[k]) => {}
                     Some(e) => {
                         // which expected message is this?
                         let which = exp_msgs
